@@ -169,6 +169,10 @@ def acc_cases(draw, tier):
     names = [n for n, _ in mg.all_layouts(cfg)]
     start = cfg["start"] if cfg["kind"] == "swapper" else draw(st.sampled_from(names))
     visit = draw(st.lists(st.sampled_from(names), min_size=0, max_size=4))
+    # some visits are detours: save here, move to that layout, restore (the grid is back where it saved) -- the
+    # accessors must describe the restored layout
+    detours = draw(st.lists(st.booleans(), min_size=len(visit), max_size=len(visit)))
+    visit = [{"detour": n} if d else n for n, d in zip(visit, detours)]
     fr = draw(st.lists(st.lists(st.floats(0, 0.999), min_size=4, max_size=4), min_size=1, max_size=3))
     return {"cfg": cfg, "start": start, "visit": visit, "fracs": fr,
             "dtype": draw(st.sampled_from(["float64", "complex128"])), "schedule": draw(gen.schedules(8))}
@@ -185,7 +189,8 @@ def _acc_rank(ctx, case):
     nd = len(shape)
     eta = mg.eta_grids(shape)
     G = ga.global_array(shape, case["dtype"])
-    grid = Grid(eta, [None] * nd, man, case["start"], ctx.comm, dtype=ga.DTYPES[case["dtype"]])
+    grid = Grid(eta, [None] * nd, man, case["start"], ctx.comm, dtype=ga.DTYPES[case["dtype"]],
+                allocateSaveMemory=any(isinstance(v, dict) for v in case["visit"]))
     l0 = grid.getLayout(case["start"])
     grid.getAllData()[:] = ga.block(G, l0.dims_order, l0.starts, l0.ends)
     bs = int(man.bufferSize)
@@ -195,7 +200,16 @@ def _acc_rank(ctx, case):
             raise Violation("C02:buffer-too-small", "bufferSize %d < block size %d of layout %s"
                             % (bs, grid.getLayout(n).size, n))
     for name in [case["start"]] + list(case["visit"]):
-        if name != grid.currentLayout:
+        if isinstance(name, dict):
+            back = grid.currentLayout
+            grid.saveGridValues()
+            if name["detour"] != back:
+                grid.setLayout(name["detour"])
+            grid.restoreGridValues()
+            if grid.currentLayout != back:
+                raise Violation("C02:restore-layout", "saved in %s, restored grid reports layout %s" % (back, grid.currentLayout))
+            name = back
+        elif name != grid.currentLayout:
             grid.setLayout(name)
         l = grid.getLayout(name)
         order = list(l.dims_order)
@@ -260,7 +274,10 @@ def acc_pred(case):
     if kinds != {"ok"}:
         raise Violation("C02:divergent-refusal", "some ranks refused, others accepted")
     off = any(r[1] for r in res)
-    return {"nontrivial": off, "labels": [cfg["kind"], "P=%d" % P], "evals": 1 + len(case["visit"])}
+    labels = [cfg["kind"], "P=%d" % P]
+    if any(isinstance(v, dict) for v in case["visit"]):
+        labels.append("save-detour-restore")
+    return {"nontrivial": off, "labels": labels, "evals": 1 + len(case["visit"])}
 
 
 SUBS = {"box": Sub(box_slab, enumerate=box_enum, exhaustive=True),
